@@ -258,8 +258,10 @@ CHECKS = {
         "crash, contents, overlap, accessibility of what is handed out) running throughout and recovery checked after the failures stop.",
    note="One arena; the model's direct-OS segments are proved but not exercised by the lockstep harness. No pinned/large pages, MI_SECURE guard "
         "slices, over-aligned huge blocks or abandoned segments in the model. 'Never crashes' is observed (exit status), not proved; thread-metadata "
-        "allocation failure is not exercised. Observation (not a soundness defect): after a refused first span commit a fresh segment stays cached "
-        "with no used page until a later allocation uses it (C07_empty_segment_cached_after_refusal); 'gives everything back' is C11's clause.",
+        "allocation failure is not exercised. Repaired defect: mi_segments_page_alloc kept a fresh segment that its retry left without a page "
+        "(refused first span commit, or a span found in another segment) and nothing freed it later; the model follows the repaired code "
+        "(C07_no_unused_segment: segments never stay owned without pages; C07_segments_page_alloc_old_keeps_unused_segment: the old code did), "
+        "and the lockstep harness reports a live segment without a page (impl:unused-segment).",
    technique="Coq inductive invariant over a failure-oracle model + exact model/implementation lockstep under an OS shim + OS-call fault enumeration",
    design="3/C07"),
 }
